@@ -15,6 +15,7 @@ from ..common import lib_module, configs_for
 from ..build import AnalysisBroken, compile_only, VERIF
 from ..core import World
 from .. import formats as FM
+from .. import e1
 from ..e1 import norm, show, ev, is_c, X, C
 
 PROP = "C01"
@@ -75,7 +76,12 @@ def analyse(mod, run, label):
     ntab = 0
     for fam, d in FM.FAMILIES.items():
         lo0 = d.get("in_lo", 0)
-        cls = FM.extract(mod, d["enc"], "enc", in_lo=lo0); ntab += 1
+        try: cls = FM.extract(mod, d["enc"], "enc", in_lo=lo0); ntab += 1
+        except FM.EncoderNotInjective as ni:
+            run.fail(Finding("L7-two-values-one-encoding", d["enc"], fam, "witness", "%s writes the same bytes for x = %d and x = %d: %s - no decoder can return both values" % (
+                d["enc"], ni.ex.x1, ni.ex.x2, ni.ex)))
+            run.c01_not_injective = True
+            continue
         lens = FM.ret_const(cls)
         if lens is None: raise AnalysisBroken("%s: non-constant length" % d["enc"])
         P = FM.merge(lens)
@@ -127,6 +133,7 @@ def analyse(mod, run, label):
                 ok, got, want = footprint_ok(st, n, reversed_rev=(order == "rev_rev"))
                 run.check(ok, "L3-footprint-is-0-to-len", {"encoder": fn, "x_in": [lo, hi], "len": n, "offsets": got},
                           Finding("L3-footprint-differs", fn, fam, "class[%d,%d]" % (lo, hi), "%s writes offsets %s for x in [%d, %d]; expected %s" % (fn, got, lo, hi, want)))
+    if getattr(run, "c01_not_injective", None): return ntab          # an encoder without a class table: what depends on it cannot be compared (reported above)
     # signed predictor of the external family
     cls = FM.extract(mod, "varintExternalPut", "enc", in_hi=(1 << 63) - 1)
     st = FM.extract(mod, "varintExternalSignedEncoding", "len", in_hi=(1 << 63) - 1); ntab += 2
@@ -200,6 +207,58 @@ def alignment(mod, run):
     return n
 
 
+# L8: decode(encode(x)) == x.  witness/roundtrip.c composes the library's encoder and decoder on a local buffer; E1 gives the closed
+# form R(x) of the composition on every class and sa/slices.py decides R == identity (bit slices of x, or of x - bias, put back in place).
+ROUNDTRIPS = {
+    "rt_tagged": "varintTaggedPut64 / varintTaggedGet64", "rt_taggedQuick": "varintTaggedPut64 / varintTaggedGet64Quick_",
+    "rt_taggedRV": "varintTaggedPut64 / varintTaggedGet64ReturnValue", "rt_taggedBounded": "varintTaggedPut64 / varintTaggedGet(n = written length)",
+    "rt_chained": "varintChainedPutVarint / varintChainedGetVarint", "rt_chainedSimple": "varintChainedSimpleEncode64 / varintChainedSimpleDecode64",
+    "rt_external": "varintExternalPut / varintExternalGet", "rt_externalQuick": "varintExternalPut / varintExternalGetQuick_",
+    "rt_split": "varintSplitPut_ / varintSplitGet_", "rt_splitFull": "varintSplitFullPut_ / varintSplitFullGet_", "rt_splitFull16": "varintSplitFull16Put_ / varintSplitFull16Get_",
+    "rt_splitFullNoZero": "varintSplitFullNoZeroPut_ / varintSplitFullNoZeroGet_ (x >= 1)",
+    "rt_chainedSimple32": "varintChainedSimpleEncode32 / varintChainedSimpleDecode32", "rt_chainedSimple32Fallback": "varintChainedSimpleEncode32 / varintChainedSimpleDecode32Fallback",
+}
+RT_DOMAIN = {"rt_splitFullNoZero": dict(in_lo=1), "rt_chainedSimple32": dict(input_bits=32), "rt_chainedSimple32Fallback": dict(input_bits=32)}
+# not covered: varintChainedGetVarint32 (reads p[1] before it knows the varint has a second byte: the closed form depends on a byte the
+# encoder did not write), the reversed split forms (written backwards from an end pointer) and the fixed-width / signed forms
+
+
+def roundtrip(run, cfg):
+    from ..slices import is_identity, first_difference
+    mod = lib_module(cfg, witness=("wrap", "roundtrip"))
+    n = 0
+    for name, what in sorted(ROUNDTRIPS.items()):
+        if mod.fn(name) is None: raise AnalysisBroken("round-trip witness %s not found" % name)
+        dom = RT_DOMAIN.get(name, {}); top = 1 << dom.get("input_bits", 64)
+        try: cls = e1.table(mod, name, input_arg=0, dst_arg=-1, **dom)
+        except e1.NotInjective as ex:
+            n += 1
+            run.fail(Finding("L8-round-trip-differs", name, what, "witness", "%s: x = %d and x = %d both come back as %s, so one of them does not round-trip (%s)" % (what, ex.x1, ex.x2, ex.ret, ex), loc="witness/roundtrip.c"))
+            continue
+        except e1.Unsupported as ex:
+            run.defer_broken("L8 %s (%s): outside the supported term language: %s" % (name, what, ex)); continue
+        # the classes tile the whole 64-bit domain
+        cur = dom.get("in_lo", 0); holes = None
+        for (lo, hi, ret, _st) in cls:
+            if lo != cur: holes = cur; break
+            cur = hi + 1
+        if holes is None and cur != top: holes = cur
+        if holes is not None:
+            run.defer_broken("L8 %s: the classes of the composition do not tile the domain (gap at %d): some path of it has no closed form" % (name, holes)); continue
+        for (lo, hi, ret, _st) in cls:
+            n += 1
+            ok = ret is not None and not isinstance(ret, e1.Ptr) and is_identity(ret, lo, hi)
+            wit = first_difference(ret, lo, hi) if (not ok and ret is not None and not isinstance(ret, e1.Ptr)) else None
+            if not ok and wit is None and ret is not None:
+                # the closed form is not a re-assembly of slices and no probe separates it from x: undecided, not a verdict
+                run.defer_broken("L8 %s on [%d, %d]: closed form %s is neither the identity by slices nor refuted by a probe" % (name, lo, hi, e1.show(ret)[:160])); continue
+            run.check(ok, "L8-decode-of-encode-is-identity", {"pair": what, "x_in": [lo, hi]},
+                      Finding("L8-round-trip-differs", name, what, "class[%d,%d]" % (lo, hi),
+                              "%s: for x in [%d, %d] decoding what was encoded gives %s, which is not x (e.g. x = %s gives %s)" % (
+                                  what, lo, hi, e1.show(ret)[:200] if ret is not None else "nothing", wit, e1.ev(ret, wit) if wit is not None else "?"), loc="witness/roundtrip.c"))
+    return n
+
+
 def run(tier):
     run = Run(PROP, tier, level="other", technique="class-table extraction by interval-partitioned symbolic constant propagation (E1); compile-fail witnesses; access-shape rule on LLVM IR")
     per = {}
@@ -207,15 +266,20 @@ def run(tier):
         mod = lib_module(cfg)
         ntab = analyse(mod, run, cfg)
         nal = alignment(mod, run)
-        per[cfg] = {"class_tables_extracted": ntab, "multi_byte_accesses_through_byte_pointers": nal}
-        run.floor("class tables (%s)" % cfg, ntab, 80)
+        nrt = roundtrip(run, cfg)
+        per[cfg] = {"class_tables_extracted": ntab, "multi_byte_accesses_through_byte_pointers": nal, "round_trip_classes": nrt}
+        if not getattr(run, "c01_not_injective", None): run.floor("class tables (%s)" % cfg, ntab, 80)
+        if not getattr(run, "deferred", None) and not run.findings: run.floor("round-trip classes (%s)" % cfg, nrt, 110)
     nw = sign_helpers(run)
     run.coverage.update({"configurations": per, "sign_helper_witnesses": nw,
                          "fixed_width_domain": "tagged widths 1-3 only accept values of exactly that class (the format subtracts the class base); widths 4-9 accept every x < 256^(w-1); external width w accepts every x < 256^w",
-                         "not_decided": "decode(encode(x)) == x itself (decoder tables, L5, not built): the claim is the length/footprint/sign/alignment clauses plus C04's byte-exact format tables",
+                         "round_trip_pairs": ROUNDTRIPS,
+                         "not_decided": "round trip of varintChainedGetVarint32, the reversed split forms, the fixed-width and signed forms (L8 covers the 14 pairs listed under round_trip_pairs for every input value)",
                          "where_this_stands": "see C04 evidence: E1 is abstract interpretation on a disjunctive interval domain, no solver, no concrete run"})
     return run.finish(
         "For each of the 9 scalar families the encoder, its length predictors (function and quick macro), its tag-byte length readers and "
         "its reversed / fixed-width / 32-bit forms are summarised as class tables over the whole value domain; the partitions must agree, "
         "lengths must lie in the documented range and the written offsets must be exactly [0, len). The sign helpers' relocation constant "
-        "must compile without shift-count overflow; no multi-byte typed access may go through a byte pointer parameter.")
+        "must compile without shift-count overflow; no multi-byte typed access may go through a byte pointer parameter. L8: for each "
+        "encoder/decoder pair the composition decode(encode(x)) written in witness/roundtrip.c is summarised by E1 as a closed form per class; "
+        "a bit-slice evaluation (every bit of x, or of x - bias, back in its place; constants cancel) shows the form is x on the whole class.")
